@@ -77,15 +77,16 @@ Proof.
   - congruence.
 Qed.
 
-Definition simple (req : Z) (h : hint) : Prop :=
+Definition simple (h : hint) : Prop :=
   match h with
-  | HInfo ((e0, _) :: _) => e0 = req
-  | HInfo2 ((e0, _, _) :: _) => e0 = req
+  | HInfo ((e0, _) :: _) => known_etype e0 = true
+  | HInfo2 ((e0, _, _) :: _) => known_etype e0 = true
   | _ => True
   end.
 
-Definition hints_simple (req : Z) (hs : list hint) : Prop :=
-  NoDup (map hint_type hs) /\ Forall (simple req) hs.
+(* at most one hint of each type, and the etypes the hints name are supported ones *)
+Definition hints_simple (hs : list hint) : Prop :=
+  NoDup (map hint_type hs) /\ Forall simple hs.
 
 Definition step2 (req : Z) (s : pastate) (h1 h2 : hint) : res pastate :=
   bind (pa_step req s h1) (fun s1 => pa_step req s1 h2).
@@ -93,24 +94,51 @@ Definition step2 (req : Z) (s : pastate) (h1 h2 : hint) : res pastate :=
 Lemma pastate_eta s : s = mkPS (ps_et s) (ps_salt s) (ps_params s) (ps_id s).
 Proof. destruct s; reflexivity. Qed.
 
+(* the default parameters in force are those of the etype selected (until ETYPE-INFO2 has spoken) *)
+Definition pinv (s : pastate) : Prop := 19 <= ps_id s \/ ps_params s = default_s2kparams (ps_et s).
+
+Lemma dflt_norm s e : ps_params s = default_s2kparams (ps_et s) ->
+  (if ps_et s =? e then ps_params s else default_s2kparams e) = default_s2kparams e.
+Proof. intros H. destruct (Z.eqb_spec (ps_et s) e); [subst; exact H|reflexivity]. Qed.
+Lemma dflt_norm2 e1 e2 : (if e1 =? e2 then default_s2kparams e1 else default_s2kparams e2) = default_s2kparams e2.
+Proof. destruct (Z.eqb_spec e1 e2); [subst|]; reflexivity. Qed.
+
+Lemma pa_step_pinv req s h s' : pinv s -> pa_step req s h = Ok s' -> pinv s'.
+Proof.
+  intros Hi E. destruct h as [a|[|[e1 a1] es1]|[|[[e1 a1] p1] es1]|t1]; cbn [pa_step] in E.
+  - destruct (Z.ltb_spec 3 (ps_id s)); injection E as <-; [exact Hi|].
+    destruct Hi as [Hi|Hi]; [lia|right; exact Hi].
+  - destruct (11 <? ps_id s); injection E as <-; exact Hi.
+  - destruct (Z.ltb_spec 11 (ps_id s)); [injection E as <-; exact Hi|].
+    destruct (negb (ps_et s =? e1) && negb (known_etype e1)); [discriminate|]. injection E as <-.
+    destruct Hi as [Hi|Hi]; [lia|]. right. cbn [ps_params ps_et]. apply dflt_norm; exact Hi.
+  - destruct (19 <? ps_id s); injection E as <-; exact Hi.
+  - destruct (Z.ltb_spec 19 (ps_id s)); [injection E as <-; exact Hi|].
+    destruct (negb (ps_et s =? e1) && negb (known_etype e1)); [discriminate|]. injection E as <-.
+    left. cbn [ps_id]. lia.
+  - injection E as <-; exact Hi.
+Qed.
+
 Lemma pa_step_commute req s h1 h2 :
-  simple req h1 -> simple req h2 -> hint_type h1 <> hint_type h2 ->
+  pinv s -> simple h1 -> simple h2 -> hint_type h1 <> hint_type h2 ->
   step2 req s h1 h2 = step2 req s h2 h1.
 Proof.
-  intros S1 S2 Hne. unfold step2.
+  intros Hi S1 S2 Hne. unfold step2.
   destruct h1 as [a|[|[e1 a1] es1]|[|[[e1 a1] p1] es1]|t1];
   destruct h2 as [b|[|[e2 b2] es2]|[|[[e2 b2] p2] es2]|t2];
-  cbn [pa_step hint_type simple] in *; subst;
+  cbn [pa_step hint_type simple] in *;
   try congruence;
-  rewrite ?Z.eqb_refl; cbn [negb andb bind];
+  rewrite ?S1, ?S2, ?andb_false_r; cbn [negb andb bind];
   repeat match goal with
          | |- context [?x <? ps_id s] => destruct (Z.ltb_spec x (ps_id s))
          end; cbn [bind pa_step ps_id ps_et ps_salt ps_params Z.ltb Z.compare Pos.compare Pos.compare_cont];
-  rewrite ?Z.eqb_refl; cbn [negb andb bind];
+  rewrite ?S1, ?S2, ?andb_false_r; cbn [negb andb bind];
   repeat match goal with
          | |- context [?x <? ps_id s] => destruct (Z.ltb_spec x (ps_id s))
          end;
   try lia; try reflexivity.
+  all: destruct Hi as [Hi|Hi]; [lia|].
+  all: rewrite ?(dflt_norm s _ Hi), ?dflt_norm2; try reflexivity.
 Qed.
 
 Lemma pa_fold_cons req s h r :
@@ -118,43 +146,136 @@ Lemma pa_fold_cons req s h r :
 Proof. reflexivity. Qed.
 
 Lemma pa_fold_perm req hs hs' :
-  Permutation hs hs' -> hints_simple req hs -> forall s, pa_fold req s hs = pa_fold req s hs'.
+  Permutation hs hs' -> hints_simple hs -> forall s, pinv s -> pa_fold req s hs = pa_fold req s hs'.
 Proof.
-  induction 1 as [|h l l' Hp IH|h1 h2 l|l l' l'' H1 IH1 H2 IH2]; intros [Hnd Hs] s.
+  induction 1 as [|h l l' Hp IH|h1 h2 l|l l' l'' H1 IH1 H2 IH2]; intros [Hnd Hs] s Hi.
   - reflexivity.
   - rewrite !pa_fold_cons. cbn [map] in Hnd. inversion Hnd; inversion Hs; subst.
-    destruct (pa_step req s h); cbn [bind]; auto. apply IH. split; assumption.
+    destruct (pa_step req s h) eqn:E; cbn [bind]; auto. apply IH; [split; assumption|].
+    eapply pa_step_pinv; eassumption.
   - rewrite !pa_fold_cons. cbn [map] in Hnd.
     inversion Hnd as [|? ? Hn1 Hnd']; subst. inversion Hs as [|? ? S1 Hs']; subst. inversion Hs' as [|? ? S2 Hs'']; subst.
     assert (hint_type h2 <> hint_type h1) as Hne by (intros E; apply Hn1; left; symmetry; exact E).
-    pose proof (pa_step_commute req s h2 h1 S1 S2 Hne) as C. unfold step2 in C.
+    pose proof (pa_step_commute req s h2 h1 Hi S1 S2 Hne) as C. unfold step2 in C.
     destruct (pa_step req s h2) as [s2| |] eqn:E2; destruct (pa_step req s h1) as [s1| |] eqn:E1;
       cbn [bind] in *; rewrite ?pa_fold_cons.
     all: try congruence.
     all: try (destruct (pa_step req s2 h1) as [a| |]; cbn [bind] in *; congruence).
     all: try (destruct (pa_step req s1 h2) as [b| |]; cbn [bind] in *; congruence).
     all: destruct (pa_step req s2 h1) as [a| |], (pa_step req s1 h2) as [b| |]; cbn [bind] in *; congruence.
-  - rewrite IH1 by (split; assumption). apply IH2. split.
+  - rewrite IH1 by (try split; assumption). apply IH2; [|assumption]. split.
     + eapply Permutation_NoDup; [apply Permutation_map; exact H1|exact Hnd].
     + eapply Permutation_Forall; eauto.
 Qed.
 
 Theorem padata_order_irrelevant pw names realm req hs hs' :
-  hints_simple req hs -> Permutation hs hs' ->
+  hints_simple hs -> Permutation hs hs' ->
   key_from_password pw names realm req hs = key_from_password pw names realm req hs'.
 Proof.
   intros Hs Hp. unfold key_from_password. destruct (negb (known_etype req)); [reflexivity|].
-  now rewrite (pa_fold_perm req hs hs' Hp Hs).
+  rewrite (pa_fold_perm req hs hs' Hp Hs); [reflexivity|]. right. reflexivity.
 Qed.
 
-(* non-vacuity: all three hints, two orders, same state; INFO2 wins *)
-Example padata_example :
-  let hs := [HSalt [1]; HInfo [(18, [2])]; HInfo2 [(18, [3], Some [0;0;0;5])]] in
-  hints_simple 18 hs /\
-  pa_fold 18 (mkPS 18 [] (default_s2kparams 18) 0) hs = Ok (mkPS 18 [3] [48;48;48;48;48;48;48;53] 19) /\
-  pa_fold 18 (mkPS 18 [] (default_s2kparams 18) 0) (rev hs) = Ok (mkPS 18 [3] [48;48;48;48;48;48;48;53] 19).
+(* ---- RFC 4120 5.2.7.5 precedence: an ETYPE-INFO2 hint, wherever it stands, alone decides etype, salt and
+   parameters; without one an ETYPE-INFO hint decides etype and salt; without either PW-SALT gives the salt ---- *)
+Lemma pa_step_fixed_19 req s h :
+  ps_id s = 19 -> (forall es, h <> HInfo2 es) -> pa_step req s h = Ok s.
 Proof.
-  split; [|split; reflexivity]. split.
+  intros Hid Hn. destruct h as [a|es|es|t]; cbn [pa_step]; rewrite ?Hid; try reflexivity.
+  exfalso; exact (Hn es eq_refl).
+Qed.
+
+Lemma pa_fold_fixed_19 req hs : forall s,
+  ps_id s = 19 -> (forall h, In h hs -> forall es, h <> HInfo2 es) -> pa_fold req s hs = Ok s.
+Proof.
+  induction hs as [|h r IH]; intros s Hid Hn; [reflexivity|].
+  cbn [pa_fold]. rewrite pa_step_fixed_19 by (try assumption; apply Hn; left; reflexivity).
+  apply IH; [assumption|]. intros h' Hin. apply Hn. right; assumption.
+Qed.
+
+Definition info2_params (p0 : option bytes) (dflt : bytes) : bytes :=
+  match p0 with Some p => if (length p =? 4)%nat then hex_of_bytes p else dflt | None => dflt end.
+
+Theorem padata_info2_decides req s0 hs e sl p0 es :
+  hints_simple hs -> ps_id s0 <= 19 -> ps_params s0 = default_s2kparams (ps_et s0) ->
+  In (HInfo2 ((e, sl, p0) :: es)) hs ->
+  pa_fold req s0 hs = Ok (mkPS e sl (info2_params p0 (default_s2kparams e)) 19).
+Proof.
+  intros Hs Hid Hp0 Hin. assert (pinv s0) as Hi by (right; exact Hp0). destruct (in_split _ _ Hin) as (l1 & l2 & ->).
+  assert (Permutation (l1 ++ HInfo2 ((e, sl, p0) :: es) :: l2) (HInfo2 ((e, sl, p0) :: es) :: l1 ++ l2)) as P
+    by (symmetry; apply Permutation_middle).
+  rewrite (pa_fold_perm req _ _ P Hs s0 Hi).
+  destruct Hs as [Hnd Hf].
+  assert (NoDup (map hint_type (HInfo2 ((e, sl, p0) :: es) :: l1 ++ l2))) as Hnd'
+    by (eapply Permutation_NoDup; [apply Permutation_map; exact P|exact Hnd]).
+  assert (simple (HInfo2 ((e, sl, p0) :: es))) as Hk by (rewrite Forall_forall in Hf; apply Hf; exact Hin).
+  cbn [simple] in Hk. cbn [pa_fold pa_step].
+  destruct (Z.ltb_spec 19 (ps_id s0)); [lia|]. rewrite Hk, andb_false_r. rewrite (dflt_norm s0 e Hp0).
+  change (match p0 with Some p => if (length p =? 4)%nat then hex_of_bytes p else default_s2kparams e | None => default_s2kparams e end)
+    with (info2_params p0 (default_s2kparams e)).
+  apply pa_fold_fixed_19; [reflexivity|].
+  intros h Hh es' ->. cbn [map hint_type] in Hnd'. inversion Hnd' as [|? ? Hni _]; subst.
+  apply Hni. apply in_map_iff. exists (HInfo2 es'). split; [reflexivity|exact Hh].
+Qed.
+
+Lemma pa_step_fixed_11 req s h :
+  ps_id s = 11 -> (forall es, h <> HInfo2 es) -> (forall es, h <> HInfo es) -> pa_step req s h = Ok s.
+Proof.
+  intros Hid Hn2 Hn1. destruct h as [a|es|es|t]; cbn [pa_step]; rewrite ?Hid; try reflexivity.
+  - exfalso; exact (Hn1 es eq_refl).
+  - exfalso; exact (Hn2 es eq_refl).
+Qed.
+
+Lemma pa_fold_fixed_11 req hs : forall s,
+  ps_id s = 11 -> (forall h, In h hs -> (forall es, h <> HInfo2 es) /\ (forall es, h <> HInfo es)) -> pa_fold req s hs = Ok s.
+Proof.
+  induction hs as [|h r IH]; intros s Hid Hn; [reflexivity|].
+  cbn [pa_fold]. destruct (Hn h (or_introl eq_refl)) as [A B]. rewrite pa_step_fixed_11 by assumption.
+  apply IH; [assumption|]. intros h' Hin. apply Hn. right; assumption.
+Qed.
+
+Theorem padata_info_decides req s0 hs e sl es :
+  hints_simple hs -> ps_id s0 <= 11 -> ps_params s0 = default_s2kparams (ps_et s0) ->
+  In (HInfo ((e, sl) :: es)) hs -> (forall es2, ~ In (HInfo2 es2) hs) ->
+  pa_fold req s0 hs = Ok (mkPS e sl (default_s2kparams e) 11).
+Proof.
+  intros Hs Hid Hp0 Hin Hno2. assert (pinv s0) as Hi by (right; exact Hp0). destruct (in_split _ _ Hin) as (l1 & l2 & ->).
+  assert (Permutation (l1 ++ HInfo ((e, sl) :: es) :: l2) (HInfo ((e, sl) :: es) :: l1 ++ l2)) as P
+    by (symmetry; apply Permutation_middle).
+  rewrite (pa_fold_perm req _ _ P Hs s0 Hi).
+  destruct Hs as [Hnd Hf].
+  assert (NoDup (map hint_type (HInfo ((e, sl) :: es) :: l1 ++ l2))) as Hnd'
+    by (eapply Permutation_NoDup; [apply Permutation_map; exact P|exact Hnd]).
+  assert (simple (HInfo ((e, sl) :: es))) as Hk by (rewrite Forall_forall in Hf; apply Hf; exact Hin).
+  cbn [simple] in Hk. cbn [pa_fold pa_step].
+  destruct (Z.ltb_spec 11 (ps_id s0)); [lia|]. rewrite Hk, andb_false_r. rewrite (dflt_norm s0 e Hp0).
+  apply pa_fold_fixed_11; [reflexivity|].
+  intros h Hh. split.
+  - intros es' ->. apply (Hno2 es'). apply (Permutation_in _ (Permutation_sym P)). right; exact Hh.
+  - intros es' ->. cbn [map hint_type] in Hnd'. inversion Hnd' as [|? ? Hni _]; subst.
+    apply Hni. apply in_map_iff. exists (HInfo es'). split; [reflexivity|exact Hh].
+Qed.
+
+(* The code as pinned: the same two hints in the two orders gave different states (and so different keys). *)
+Theorem padata_pinned_order_matters_refuted :
+  let hs := [HInfo [(23, [2])]; HInfo2 [(17, [3], Some [0;0;0;5])]] in
+  hints_simple hs /\ Permutation hs (rev hs) /\
+  pa_fold_pinned 17 (mkPS 17 [] (default_s2kparams 17) 0) hs <> pa_fold_pinned 17 (mkPS 17 [] (default_s2kparams 17) 0) (rev hs) /\
+  pa_fold 17 (mkPS 17 [] (default_s2kparams 17) 0) hs = pa_fold 17 (mkPS 17 [] (default_s2kparams 17) 0) (rev hs).
+Proof.
+  cbn zeta. split; [|split; [apply Permutation_rev|split; [vm_compute; discriminate|reflexivity]]].
+  split; [cbn; repeat constructor; cbn; intuition discriminate|repeat constructor].
+Qed.
+
+(* non-vacuity: all three hints, naming different etypes, two orders, same state; INFO2 wins *)
+Example padata_example :
+  let hs := [HSalt [1]; HInfo [(23, [2])]; HInfo2 [(18, [3], Some [0;0;0;5])]] in
+  hints_simple hs /\
+  pa_fold 18 (mkPS 18 [] (default_s2kparams 18) 0) hs = Ok (mkPS 18 [3] [48;48;48;48;48;48;48;53] 19) /\
+  pa_fold 18 (mkPS 18 [] (default_s2kparams 18) 0) (rev hs) = Ok (mkPS 18 [3] [48;48;48;48;48;48;48;53] 19) /\
+  pa_fold 23 (mkPS 23 [] (default_s2kparams 23) 0) (rev hs) = Ok (mkPS 18 [3] [48;48;48;48;48;48;48;53] 19).
+Proof.
+  split; [|split; [|split]; reflexivity]. split.
   - cbn. repeat constructor; cbn; intuition discriminate.
   - repeat constructor.
 Qed.
